@@ -31,4 +31,8 @@ def run(rep, fb, tier):
     _pr4.rule_py_defassign(rep)
     from ..rules import pybind as _pb2
     _pb2.rule_py_layout_attrs(rep)
+    from ..rules import pyrules as _pr5
+    _pr5.rule_py_call_shape(rep)
+    _pr5.rule_py_dead_attr(rep)
+    _pr5.rule_py_highlevel_returns(rep)
     rep.units = fb.units + ["src/awkward/partition.py, _util.py, operations/structure.py (ast)"]
